@@ -175,4 +175,327 @@ theorem release_dtors {s : Arena} (hI : Inv s) :
     simp only [dtorRuns] at h2 h3
     rw [h2, h3]; rfl
 
+/-! ### no bookkeeping read after the memory holding it was returned -/
+
+def Ev.freedSeg (ps : Nat) : Ev → Option Seg
+  | .pageFree _ p => some ⟨p, ps⟩
+  | .upFree _ p b _ => some ⟨p, b⟩
+  | _ => none
+
+def Ev.readSeg : Ev → Option Seg
+  | .read a n => some ⟨a, n⟩
+  | _ => none
+
+/-- `x` happens before `y`: if `x` returns memory and `y` is a bookkeeping read, they do not meet -/
+def RAFok (ps : Nat) (x y : Ev) : Prop := ∀ f r, x.freedSeg ps = some f → y.readSeg = some r → Disj r f
+
+/-- every bookkeeping read in the trace avoids all memory returned before it -/
+def NoReadAfterFree (ps : Nat) (evs : List Ev) : Prop := evs.Pairwise (RAFok ps)
+
+theorem rafok_of_not_free {ps : Nat} {x : Ev} (h : x.freedSeg ps = none) (y : Ev) : RAFok ps x y := by
+  intro f r hf; rw [h] at hf; cases hf
+
+theorem rafok_of_not_read {ps : Nat} {y : Ev} (h : y.readSeg = none) (x : Ev) : RAFok ps x y := by
+  intro f r _ hr; rw [h] at hr; cases hr
+
+theorem pairwise_of_no_free {ps : Nat} {l : List Ev} (h : ∀ x ∈ l, x.freedSeg ps = none) : l.Pairwise (RAFok ps) := by
+  induction l with
+  | nil => exact List.Pairwise.nil
+  | cons x xs ih =>
+    exact List.pairwise_cons.mpr ⟨fun y _ => rafok_of_not_free (h x List.mem_cons_self) y,
+      ih (fun y hy => h y (List.mem_cons_of_mem _ hy))⟩
+
+theorem pairwise_of_no_read {ps : Nat} {l : List Ev} (h : ∀ x ∈ l, x.readSeg = none) : l.Pairwise (RAFok ps) := by
+  induction l with
+  | nil => exact List.Pairwise.nil
+  | cons x xs ih =>
+    exact List.pairwise_cons.mpr ⟨fun y hy => rafok_of_not_read (h y (List.mem_cons_of_mem _ hy)) x,
+      ih (fun y hy => h y (List.mem_cons_of_mem _ hy))⟩
+
+theorem mem_entryAddrs_pages {addr k p : Nat} (hk : k ≤ pageArrayCap)
+    (hp : p ∈ entryAddrs addr offsetPages ptrSize pageArrayCap k) :
+    Inside ⟨p, ptrSize⟩ ⟨addr, sizeofPageArray⟩ := by
+  simp only [entryAddrs, List.mem_map, List.mem_range] at hp
+  obtain ⟨i, hi, rfl⟩ := hp
+  seg_omega
+
+theorem mem_entryAddrs_ov {addr k p : Nat} (hk : k ≤ pageArrayCap)
+    (hp : p ∈ entryAddrs addr offsetOvPages sizeofOvPage pageArrayCap k) :
+    Inside ⟨p, sizeofOvPage⟩ ⟨addr, sizeofOvArray⟩ := by
+  simp only [entryAddrs, List.mem_map, List.mem_range] at hp
+  obtain ⟨i, hi, rfl⟩ := hp
+  seg_omega
+
+/-- reads and frees of the page loop -/
+theorem releasePages_events (ps pa : Nat) (arrs : List PageArr) (hshape : ∀ a ∈ arrs, a.pages.length ≤ pageArrayCap) :
+    (∀ y ∈ releasePages pa arrs, ∀ r, y.readSeg = some r → ∃ a ∈ arrs, Inside r a.seg) ∧
+    (∀ x ∈ releasePages pa arrs, ∀ f, x.freedSeg ps = some f → ∃ p ∈ arrs.flatMap (·.pages), f = ⟨p, ps⟩) := by
+  induction arrs with
+  | nil => simp [releasePages]
+  | cons a rest ih =>
+    obtain ⟨ih1, ih2⟩ := ih (fun x hx => hshape x (List.mem_cons_of_mem _ hx))
+    have hk := hshape a List.mem_cons_self
+    refine ⟨?_, ?_⟩
+    · intro y hy r hr
+      simp only [releasePages, List.mem_append, List.mem_cons, List.mem_nil_iff, or_false, List.mem_map] at hy
+      rcases hy with ((rfl | ⟨p, hp, rfl⟩) | ⟨p, _, rfl⟩) | hy
+      · simp only [Ev.readSeg, Option.some.injEq] at hr; subst hr
+        exact ⟨a, List.mem_cons_self, by seg_omega⟩
+      · simp only [Ev.readSeg, Option.some.injEq] at hr; subst hr
+        exact ⟨a, List.mem_cons_self, mem_entryAddrs_pages hk hp⟩
+      · cases hr
+      · obtain ⟨a', ha', hin⟩ := ih1 y hy r hr
+        exact ⟨a', List.mem_cons_of_mem _ ha', hin⟩
+    · intro x hx f hf
+      simp only [releasePages, List.mem_append, List.mem_cons, List.mem_nil_iff, or_false, List.mem_map] at hx
+      rcases hx with ((rfl | ⟨p, hp, rfl⟩) | ⟨p, hp, rfl⟩) | hx
+      · cases hf
+      · cases hf
+      · simp only [Ev.freedSeg, Option.some.injEq] at hf; subst hf
+        exact ⟨p, by simp [hp], rfl⟩
+      · obtain ⟨p, hp, rfl⟩ := ih2 x hx f hf
+        exact ⟨p, by simp only [List.flatMap_cons, List.mem_append]; exact Or.inr hp, rfl⟩
+
+theorem arrsHome_mem {ps : Nat} {arrs : List PageArr} (h : ArrsHome ps arrs) {a : PageArr} (ha : a ∈ arrs) :
+    ∃ q ∈ arrs.flatMap (·.pages), Inside a.seg ⟨q, ps⟩ := by
+  induction arrs with
+  | nil => cases ha
+  | cons x rest ih =>
+    rcases List.mem_cons.mp ha with rfl | ha
+    · obtain ⟨q, hq, hin⟩ := h.1
+      exact ⟨q, by simpa using hq, hin⟩
+    · obtain ⟨q, hq, hin⟩ := ih h.2 ha
+      exact ⟨q, by simp only [List.flatMap_cons, List.mem_append]; exact Or.inr hq, hin⟩
+
+theorem releasePages_noRAF (ps pa : Nat) (arrs : List PageArr)
+    (hshape : ∀ a ∈ arrs, a.pages.length ≤ pageArrayCap) (hhome : ArrsHome ps arrs)
+    (hpw : (arrs.flatMap (·.pages)).Pairwise (fun p q => Disj ⟨p, ps⟩ ⟨q, ps⟩)) :
+    NoReadAfterFree ps (releasePages pa arrs) := by
+  induction arrs with
+  | nil => exact List.Pairwise.nil
+  | cons a rest ih =>
+    have hshape' : ∀ x ∈ rest, x.pages.length ≤ pageArrayCap := fun x hx => hshape x (List.mem_cons_of_mem _ hx)
+    simp only [List.flatMap_cons] at hpw
+    obtain ⟨_, hpw2, hcross⟩ := List.pairwise_append.mp hpw
+    have ihr := ih hshape' hhome.2 hpw2
+    obtain ⟨hreads, _⟩ := releasePages_events ps pa rest hshape'
+    unfold NoReadAfterFree at *
+    simp only [releasePages]
+    refine List.pairwise_append.mpr ⟨?_, ihr, ?_⟩
+    · refine List.pairwise_append.mpr ⟨?_, ?_, ?_⟩
+      · apply pairwise_of_no_free
+        intro x hx
+        simp only [List.mem_append, List.mem_cons, List.mem_nil_iff, or_false, List.mem_map] at hx
+        rcases hx with rfl | ⟨p, _, rfl⟩ <;> rfl
+      · apply pairwise_of_no_read
+        intro x hx
+        simp only [List.mem_map] at hx
+        obtain ⟨p, _, rfl⟩ := hx; rfl
+      · intro x hx y _
+        apply rafok_of_not_free
+        simp only [List.mem_append, List.mem_cons, List.mem_nil_iff, or_false, List.mem_map] at hx
+        rcases hx with rfl | ⟨p, _, rfl⟩ <;> rfl
+    · intro x hx y hy f r hf hr
+      simp only [List.mem_append, List.mem_cons, List.mem_nil_iff, or_false, List.mem_map] at hx
+      rcases hx with (rfl | ⟨p, _, rfl⟩) | ⟨p, hp, rfl⟩
+      · cases hf
+      · cases hf
+      · simp only [Ev.freedSeg, Option.some.injEq] at hf; subst hf
+        obtain ⟨a', ha', hin⟩ := hreads y hy r hr
+        obtain ⟨q, hq, hin2⟩ := arrsHome_mem hhome.2 ha'
+        exact Disj.of_sub_left (hcross p hp q hq).symm (hin.trans hin2).sub
+
+def OvEntry.seg (e : OvEntry) : Seg := ⟨e.page, e.bytes⟩
+
+/-- events of one oversize array's loop body -/
+abbrev ovBody (up : Nat) (z : List (Nat × OvEntry)) : List Ev :=
+  z.flatMap (fun (p, en) => [Ev.read p sizeofOvPage, Ev.upFree up en.page en.bytes en.align])
+
+theorem ovBody_events (ps up : Nat) (z : List (Nat × OvEntry)) :
+    (∀ y ∈ ovBody up z, ∀ r, y.readSeg = some r → ∃ x ∈ z, r = ⟨x.1, sizeofOvPage⟩) ∧
+    (∀ x ∈ ovBody up z, ∀ f, x.freedSeg ps = some f → ∃ e ∈ z.map Prod.snd, f = e.seg) := by
+  induction z with
+  | nil => simp [ovBody]
+  | cons x xs ih =>
+    obtain ⟨ih1, ih2⟩ := ih
+    refine ⟨?_, ?_⟩
+    · intro y hy r hr
+      simp only [ovBody, List.flatMap_cons, List.mem_append, List.mem_cons, List.mem_nil_iff, or_false] at hy
+      rcases hy with (rfl | rfl) | hy
+      · simp only [Ev.readSeg, Option.some.injEq] at hr
+        exact ⟨x, List.mem_cons_self, hr.symm⟩
+      · cases hr
+      · obtain ⟨x', hx', h⟩ := ih1 y hy r hr
+        exact ⟨x', List.mem_cons_of_mem _ hx', h⟩
+    · intro y hy f hf
+      simp only [ovBody, List.flatMap_cons, List.mem_append, List.mem_cons, List.mem_nil_iff, or_false] at hy
+      rcases hy with (rfl | rfl) | hy
+      · cases hf
+      · simp only [Ev.freedSeg, Option.some.injEq] at hf
+        exact ⟨x.2, by simp, hf.symm⟩
+      · obtain ⟨e, he, h⟩ := ih2 y hy f hf
+        exact ⟨e, by simp only [List.map_cons, List.mem_cons]; exact Or.inr he, h⟩
+
+/-- inside one array: entry `i` is read before block `i` is returned, and the array itself lives in
+the block of its last entry, which is returned last -/
+theorem ovBody_noRAF (ps up : Nat) (A : Seg) (z : List (Nat × OvEntry))
+    (hin : ∀ x ∈ z, Inside ⟨x.1, sizeofOvPage⟩ A)
+    (hpw : (z.map Prod.snd).Pairwise (fun e f => Disj e.seg f.seg))
+    (hlast : ∀ last, (z.map Prod.snd).getLast? = some last → Inside A last.seg) :
+    (ovBody up z).Pairwise (RAFok ps) := by
+  induction z with
+  | nil => exact List.Pairwise.nil
+  | cons x xs ih =>
+    simp only [List.map_cons] at hpw hlast
+    obtain ⟨hx, hpw'⟩ := List.pairwise_cons.mp hpw
+    have hin' : ∀ y ∈ xs, Inside ⟨y.1, sizeofOvPage⟩ A := fun y hy => hin y (List.mem_cons_of_mem _ hy)
+    have hlast' : ∀ last, (xs.map Prod.snd).getLast? = some last → Inside A last.seg := by
+      intro last hl
+      apply hlast
+      cases hxs : xs.map Prod.snd with
+      | nil => rw [hxs] at hl; cases hl
+      | cons y ys => rw [hxs] at hl; rw [List.getLast?_cons_cons]; exact hl
+    have ihr := ih hin' hpw' hlast'
+    obtain ⟨hreads, _⟩ := ovBody_events ps up xs
+    simp only [ovBody, List.flatMap_cons]
+    refine List.pairwise_append.mpr ⟨?_, ihr, ?_⟩
+    · exact List.pairwise_cons.mpr ⟨fun y _ => rafok_of_not_free rfl y, List.pairwise_singleton _ _⟩
+    · intro e he y hy f r hf hr
+      simp only [List.mem_cons, List.mem_nil_iff, or_false] at he
+      rcases he with rfl | rfl
+      · cases hf
+      · simp only [Ev.freedSeg, Option.some.injEq] at hf; subst hf
+        obtain ⟨x', hx', rfl⟩ := hreads y hy r hr
+        -- xs is not empty, so there is a last entry, different from x
+        have hne : xs.map Prod.snd ≠ [] := by
+          intro h0
+          have : xs = [] := by simpa using h0
+          rw [this] at hx'; cases hx'
+        obtain ⟨last, hl⟩ : ∃ last, (xs.map Prod.snd).getLast? = some last := by
+          cases hxs : xs.map Prod.snd with
+          | nil => exact absurd hxs hne
+          | cons y ys => exact ⟨_, List.getLast?_eq_some_getLast (by simp)⟩
+        have hmem : last ∈ xs.map Prod.snd := List.mem_of_getLast? hl
+        have hd : Disj x.2.seg last.seg := hx last hmem
+        have hA := hlast' last hl
+        exact Disj.of_sub_left hd.symm ((hin' x' hx').trans hA).sub
+
+theorem ovArr_home {a : OvArr} (h : OvArrOK a) : ∃ last, a.ents.getLast? = some last ∧ Inside a.seg last.seg := by
+  obtain ⟨_, _, _, last, hl, h1, h2⟩ := h
+  exact ⟨last, hl, by simp only [OvArr.seg, OvEntry.seg, Inside]; omega⟩
+
+theorem zip_entries_snd (a : OvArr) :
+    ((entryAddrs a.addr offsetOvPages sizeofOvPage pageArrayCap a.ents.length).zip a.ents).map Prod.snd = a.ents :=
+  List.map_snd_zip (by rw [length_entryAddrs]; exact Nat.le_refl _)
+
+theorem releaseOv_events (ps up : Nat) (arrs : List OvArr) (hshape : ∀ a ∈ arrs, OvArrOK a) :
+    (∀ y ∈ releaseOv up arrs, ∀ r, y.readSeg = some r → ∃ a ∈ arrs, Inside r a.seg) ∧
+    (∀ x ∈ releaseOv up arrs, ∀ f, x.freedSeg ps = some f → ∃ e ∈ arrs.flatMap (·.ents), f = e.seg) := by
+  induction arrs with
+  | nil => simp [releaseOv]
+  | cons a rest ih =>
+    obtain ⟨ih1, ih2⟩ := ih (fun x hx => hshape x (List.mem_cons_of_mem _ hx))
+    have hk := (hshape a List.mem_cons_self).2.1
+    obtain ⟨hb1, hb2⟩ := ovBody_events ps up
+      ((entryAddrs a.addr offsetOvPages sizeofOvPage pageArrayCap a.ents.length).zip a.ents)
+    refine ⟨?_, ?_⟩
+    · intro y hy r hr
+      simp only [releaseOv, List.mem_append, List.mem_cons, List.mem_nil_iff, or_false] at hy
+      rcases hy with (rfl | hy) | hy
+      · simp only [Ev.readSeg, Option.some.injEq] at hr; subst hr
+        exact ⟨a, List.mem_cons_self, by seg_omega⟩
+      · obtain ⟨x, hx, rfl⟩ := hb1 y hy r hr
+        exact ⟨a, List.mem_cons_self, mem_entryAddrs_ov hk (List.of_mem_zip (a := x.1) (b := x.2) hx).1⟩
+      · obtain ⟨a', ha', hin⟩ := ih1 y hy r hr
+        exact ⟨a', List.mem_cons_of_mem _ ha', hin⟩
+    · intro x hx f hf
+      simp only [releaseOv, List.mem_append, List.mem_cons, List.mem_nil_iff, or_false] at hx
+      rcases hx with (rfl | hx) | hx
+      · cases hf
+      · obtain ⟨e, he, rfl⟩ := hb2 x hx f hf
+        rw [zip_entries_snd] at he
+        exact ⟨e, by simp [he], rfl⟩
+      · obtain ⟨e, he, rfl⟩ := ih2 x hx f hf
+        exact ⟨e, by simp only [List.flatMap_cons, List.mem_append]; exact Or.inr he, rfl⟩
+
+theorem releaseOv_noRAF (ps up : Nat) (arrs : List OvArr) (hshape : ∀ a ∈ arrs, OvArrOK a)
+    (hpw : (arrs.flatMap (·.ents)).Pairwise (fun e f => Disj e.seg f.seg)) :
+    NoReadAfterFree ps (releaseOv up arrs) := by
+  induction arrs with
+  | nil => exact List.Pairwise.nil
+  | cons a rest ih =>
+    have hshape' : ∀ x ∈ rest, OvArrOK x := fun x hx => hshape x (List.mem_cons_of_mem _ hx)
+    simp only [List.flatMap_cons] at hpw
+    obtain ⟨hpw1, hpw2, hcross⟩ := List.pairwise_append.mp hpw
+    have ihr := ih hshape' hpw2
+    obtain ⟨hreads, _⟩ := releaseOv_events ps up rest hshape'
+    have hk := (hshape a List.mem_cons_self).2.1
+    obtain ⟨last, hl, hhome⟩ := ovArr_home (hshape a List.mem_cons_self)
+    have hbody := ovBody_noRAF ps up a.seg
+      ((entryAddrs a.addr offsetOvPages sizeofOvPage pageArrayCap a.ents.length).zip a.ents)
+      (fun x hx => mem_entryAddrs_ov hk (List.of_mem_zip (a := x.1) (b := x.2) hx).1)
+      (by rw [zip_entries_snd]; exact hpw1)
+      (by rw [zip_entries_snd]; intro l hl'; rw [hl] at hl'; cases hl'; exact hhome)
+    obtain ⟨_, hfrees⟩ := ovBody_events ps up
+      ((entryAddrs a.addr offsetOvPages sizeofOvPage pageArrayCap a.ents.length).zip a.ents)
+    unfold NoReadAfterFree at *
+    simp only [releaseOv]
+    refine List.pairwise_append.mpr ⟨?_, ihr, ?_⟩
+    · exact List.pairwise_append.mpr ⟨List.pairwise_singleton _ _, hbody, by
+        intro x hx y _
+        simp only [List.mem_cons, List.mem_nil_iff, or_false] at hx
+        subst hx
+        exact rafok_of_not_free rfl y⟩
+    · intro x hx y hy f r hf hr
+      simp only [List.mem_append, List.mem_cons, List.mem_nil_iff, or_false] at hx
+      rcases hx with rfl | hx
+      · cases hf
+      · obtain ⟨e, he, rfl⟩ := hfrees x hx f hf
+        rw [zip_entries_snd] at he
+        obtain ⟨a', ha', hin⟩ := hreads y hy r hr
+        obtain ⟨last', hl', hhome'⟩ := ovArr_home (hshape' a' ha')
+        have hmem : last' ∈ rest.flatMap (·.ents) :=
+          List.mem_flatMap.mpr ⟨a', ha', List.mem_of_getLast? hl'⟩
+        exact Disj.of_sub_left (hcross e he last' hmem).symm (hin.trans hhome').sub
+
+/-- pages and upstream blocks held are pairwise disjoint (from the region part of the invariant) -/
+theorem held_pairwise {s : Arena} (hI : Inv s) :
+    (s.pageArrs.flatMap (·.pages)).Pairwise (fun p q => Disj ⟨p, s.pageSize⟩ ⟨q, s.pageSize⟩) ∧
+    (s.ovArrs.flatMap (·.ents)).Pairwise (fun e f => Disj e.seg f.seg) ∧
+    (∀ p ∈ s.pageArrs.flatMap (·.pages), ∀ e ∈ s.ovArrs.flatMap (·.ents), Disj ⟨p, s.pageSize⟩ e.seg) := by
+  have h := hI.core.geo.rDisj
+  simp only [regions, pageRegs, ovRegs, hI.core.pg.heldEq, hI.core.ov.heldEq, List.map_map] at h
+  obtain ⟨h1, h2, h3⟩ := List.pairwise_append.mp h
+  refine ⟨?_, ?_, ?_⟩
+  · exact (List.pairwise_map.mp h1)
+  · exact (List.pairwise_map.mp h2)
+  · intro p hp e he
+    exact h3 _ (List.mem_map.mpr ⟨p, hp, rfl⟩) _ (List.mem_map.mpr ⟨e, he, rfl⟩)
+
+/-- `release()` never reads a bookkeeping field from memory it has already returned. -/
+theorem release_noRAF {s : Arena} (hI : Inv s) : NoReadAfterFree s.pageSize s.release.2 := by
+  obtain ⟨hp1, hp2, hp3⟩ := held_pairwise hI
+  have hc := hI.core
+  have hshapeP : ∀ a ∈ s.pageArrs, a.pages.length ≤ pageArrayCap := fun a ha => (hc.pg.shape a ha).2.1
+  have hP := releasePages_noRAF s.pageSize s.pa s.pageArrs hshapeP hc.pg.home hp1
+  have hO := releaseOv_noRAF s.pageSize s.up s.ovArrs hc.ov.shape hp2
+  obtain ⟨_, hPfrees⟩ := releasePages_events s.pageSize s.pa s.pageArrs hshapeP
+  obtain ⟨hOreads, _⟩ := releaseOv_events s.pageSize s.up s.ovArrs hc.ov.shape
+  have hD : ∀ x ∈ destructAll s.dtArrs, x.freedSeg s.pageSize = none := by
+    intro x hx
+    have := (destructAll_proj s.dtArrs).2.2.2 x hx
+    cases x <;> simp_all [Ev.isFree, Ev.freedSeg]
+  unfold NoReadAfterFree at *
+  simp only [Arena.release]
+  refine List.pairwise_append.mpr ⟨?_, hO, ?_⟩
+  · exact List.pairwise_append.mpr ⟨pairwise_of_no_free hD, hP, fun x hx y _ => rafok_of_not_free (hD x hx) y⟩
+  · intro x hx y hy f r hf hr
+    rcases List.mem_append.mp hx with hx | hx
+    · rw [hD x hx] at hf; cases hf
+    · obtain ⟨p, hp, rfl⟩ := hPfrees x hx f hf
+      obtain ⟨a', ha', hin⟩ := hOreads y hy r hr
+      obtain ⟨last', hl', hhome'⟩ := ovArr_home (hc.ov.shape a' ha')
+      have hmem : last' ∈ s.ovArrs.flatMap (·.ents) := List.mem_flatMap.mpr ⟨a', ha', List.mem_of_getLast? hl'⟩
+      exact Disj.of_sub_left (hp3 p hp last' hmem).symm (hin.trans hhome').sub
+
 end Babylon.Arena
